@@ -2436,9 +2436,2298 @@
  }
 }
 */
+/* VERIF-UNIT
+{
+ "name": "rb_insert_extent_keep_n1",
+ "props": [
+  "C16"
+ ],
+ "level": "B(1)",
+ "tier": "wip",
+ "harness": "h_rb_insert",
+ "defines": [
+  "EXT2_CUSTOM_MEMORY_ROUTINES",
+  "RB_N=1",
+  "RB_NEW=0",
+  "RB_SCEN=1",
+  "RB_BITS=16"
+ ],
+ "unwind": 9,
+ "unwind_reason": "x",
+ "sources": [
+  "lib/ext2fs/rbtree.c"
+ ],
+ "functions": [
+  "lib/ext2fs/blkmap64_rb.c:rb_insert_extent",
+  "lib/ext2fs/blkmap64_rb.c:rb_mark_bmap",
+  "lib/ext2fs/blkmap64_rb.c:rb_mark_bmap_extent",
+  "lib/ext2fs/blkmap64_rb.c:rb_get_new_extent",
+  "lib/ext2fs/blkmap64_rb.c:rb_free_extent"
+ ],
+ "assumes": [
+  "x"
+ ],
+ "backend": "minisat",
+ "native": true,
+ "cbmc_flags": [
+  "--object-bits",
+  "10"
+ ],
+ "unwindset": {
+  "ext2fs_rb_next.0": 3,
+  "ext2fs_rb_next.1": 3,
+  "ext2fs_rb_prev.0": 3,
+  "ext2fs_rb_prev.1": 3,
+  "rb_insert_extent.0": 2,
+  "rb_insert_extent.1": 2
+ },
+ "replace": [
+  "ext2fs_rb_erase",
+  "ext2fs_rb_insert_color"
+ ]
+}
+*/
+/* VERIF-UNIT
+{
+ "name": "rb_insert_extent_new_n1",
+ "props": [
+  "C16"
+ ],
+ "level": "B(1)",
+ "tier": "wip",
+ "harness": "h_rb_insert",
+ "defines": [
+  "EXT2_CUSTOM_MEMORY_ROUTINES",
+  "RB_N=1",
+  "RB_NEW=1",
+  "RB_SCEN=2",
+  "RB_BITS=16"
+ ],
+ "unwind": 9,
+ "unwind_reason": "x",
+ "sources": [
+  "lib/ext2fs/rbtree.c"
+ ],
+ "functions": [
+  "lib/ext2fs/blkmap64_rb.c:rb_insert_extent",
+  "lib/ext2fs/blkmap64_rb.c:rb_mark_bmap",
+  "lib/ext2fs/blkmap64_rb.c:rb_mark_bmap_extent",
+  "lib/ext2fs/blkmap64_rb.c:rb_get_new_extent",
+  "lib/ext2fs/blkmap64_rb.c:rb_free_extent"
+ ],
+ "assumes": [
+  "x"
+ ],
+ "backend": "minisat",
+ "native": true,
+ "cbmc_flags": [
+  "--object-bits",
+  "10"
+ ],
+ "unwindset": {
+  "ext2fs_rb_next.0": 3,
+  "ext2fs_rb_next.1": 3,
+  "ext2fs_rb_prev.0": 3,
+  "ext2fs_rb_prev.1": 3,
+  "ext2fs_rb_insert_color.0": 1,
+  "rb_insert_extent.0": 2,
+  "rb_insert_extent.1": 2
+ },
+ "replace": [
+  "ext2fs_rb_erase"
+ ]
+}
+*/
+/* VERIF-UNIT
+{
+ "name": "rb_insert_extent_merge_n1",
+ "props": [
+  "C16"
+ ],
+ "level": "B(1)",
+ "tier": "wip",
+ "harness": "h_rb_insert",
+ "defines": [
+  "EXT2_CUSTOM_MEMORY_ROUTINES",
+  "RB_N=1",
+  "RB_NEW=0",
+  "RB_SCEN=3",
+  "RB_BITS=16"
+ ],
+ "unwind": 9,
+ "unwind_reason": "x",
+ "sources": [
+  "lib/ext2fs/rbtree.c"
+ ],
+ "functions": [
+  "lib/ext2fs/blkmap64_rb.c:rb_insert_extent",
+  "lib/ext2fs/blkmap64_rb.c:rb_mark_bmap",
+  "lib/ext2fs/blkmap64_rb.c:rb_mark_bmap_extent",
+  "lib/ext2fs/blkmap64_rb.c:rb_get_new_extent",
+  "lib/ext2fs/blkmap64_rb.c:rb_free_extent"
+ ],
+ "assumes": [
+  "x"
+ ],
+ "backend": "minisat",
+ "native": true,
+ "cbmc_flags": [
+  "--object-bits",
+  "10"
+ ],
+ "unwindset": {
+  "ext2fs_rb_next.0": 3,
+  "ext2fs_rb_next.1": 3,
+  "ext2fs_rb_prev.0": 3,
+  "ext2fs_rb_prev.1": 3,
+  "ext2fs_rb_erase.0": 1,
+  "__rb_erase_color.0": 1,
+  "rb_insert_extent.0": 2,
+  "rb_insert_extent.1": 2
+ },
+ "replace": [
+  "ext2fs_rb_insert_color"
+ ]
+}
+*/
+/* VERIF-UNIT
+{
+ "name": "rb_insert_extent_newmerge_n1",
+ "props": [
+  "C16"
+ ],
+ "level": "B(1)",
+ "tier": "wip",
+ "harness": "h_rb_insert",
+ "defines": [
+  "EXT2_CUSTOM_MEMORY_ROUTINES",
+  "RB_N=1",
+  "RB_NEW=1",
+  "RB_SCEN=4",
+  "RB_BITS=16"
+ ],
+ "unwind": 9,
+ "unwind_reason": "x",
+ "sources": [
+  "lib/ext2fs/rbtree.c"
+ ],
+ "functions": [
+  "lib/ext2fs/blkmap64_rb.c:rb_insert_extent",
+  "lib/ext2fs/blkmap64_rb.c:rb_mark_bmap",
+  "lib/ext2fs/blkmap64_rb.c:rb_mark_bmap_extent",
+  "lib/ext2fs/blkmap64_rb.c:rb_get_new_extent",
+  "lib/ext2fs/blkmap64_rb.c:rb_free_extent"
+ ],
+ "assumes": [
+  "x"
+ ],
+ "backend": "minisat",
+ "native": true,
+ "cbmc_flags": [
+  "--object-bits",
+  "10"
+ ],
+ "unwindset": {
+  "ext2fs_rb_next.0": 3,
+  "ext2fs_rb_next.1": 3,
+  "ext2fs_rb_prev.0": 3,
+  "ext2fs_rb_prev.1": 3,
+  "ext2fs_rb_erase.0": 1,
+  "__rb_erase_color.0": 1,
+  "ext2fs_rb_insert_color.0": 1,
+  "rb_insert_extent.0": 2,
+  "rb_insert_extent.1": 2
+ }
+}
+*/
+/* VERIF-UNIT
+{
+ "name": "rb_remove_extent_trunc_n1",
+ "props": [
+  "C16"
+ ],
+ "level": "B(1)",
+ "tier": "wip",
+ "harness": "h_rb_remove",
+ "defines": [
+  "EXT2_CUSTOM_MEMORY_ROUTINES",
+  "RB_N=1",
+  "RB_NEW=0",
+  "RB_SCEN=1",
+  "RB_BITS=16"
+ ],
+ "unwind": 9,
+ "unwind_reason": "x",
+ "sources": [
+  "lib/ext2fs/rbtree.c"
+ ],
+ "functions": [
+  "lib/ext2fs/blkmap64_rb.c:rb_remove_extent",
+  "lib/ext2fs/blkmap64_rb.c:rb_unmark_bmap",
+  "lib/ext2fs/blkmap64_rb.c:rb_unmark_bmap_extent",
+  "lib/ext2fs/blkmap64_rb.c:rb_free_extent"
+ ],
+ "assumes": [
+  "x"
+ ],
+ "backend": "minisat",
+ "native": true,
+ "cbmc_flags": [
+  "--object-bits",
+  "10"
+ ],
+ "unwindset": {
+  "ext2fs_rb_next.0": 3,
+  "ext2fs_rb_next.1": 3,
+  "rb_remove_extent.0": 3,
+  "rb_remove_extent.1": 3
+ },
+ "replace": [
+  "ext2fs_rb_erase",
+  "rb_insert_extent"
+ ]
+}
+*/
+/* VERIF-UNIT
+{
+ "name": "rb_remove_extent_split_n1",
+ "props": [
+  "C16"
+ ],
+ "level": "B(1)",
+ "tier": "wip",
+ "harness": "h_rb_remove",
+ "defines": [
+  "EXT2_CUSTOM_MEMORY_ROUTINES",
+  "RB_N=1",
+  "RB_NEW=1",
+  "RB_SCEN=2",
+  "RB_BITS=16"
+ ],
+ "unwind": 9,
+ "unwind_reason": "x",
+ "sources": [
+  "lib/ext2fs/rbtree.c"
+ ],
+ "functions": [
+  "lib/ext2fs/blkmap64_rb.c:rb_remove_extent",
+  "lib/ext2fs/blkmap64_rb.c:rb_unmark_bmap",
+  "lib/ext2fs/blkmap64_rb.c:rb_unmark_bmap_extent",
+  "lib/ext2fs/blkmap64_rb.c:rb_free_extent"
+ ],
+ "assumes": [
+  "x"
+ ],
+ "backend": "minisat",
+ "native": true,
+ "cbmc_flags": [
+  "--object-bits",
+  "10"
+ ],
+ "unwindset": {
+  "ext2fs_rb_next.0": 3,
+  "ext2fs_rb_next.1": 3,
+  "ext2fs_rb_prev.0": 3,
+  "ext2fs_rb_prev.1": 3,
+  "ext2fs_rb_insert_color.0": 1,
+  "rb_insert_extent.0": 2,
+  "rb_insert_extent.1": 2,
+  "rb_remove_extent.0": 3,
+  "rb_remove_extent.1": 3
+ },
+ "replace": [
+  "ext2fs_rb_erase"
+ ]
+}
+*/
+/* VERIF-UNIT
+{
+ "name": "rb_remove_extent_delete_n1",
+ "props": [
+  "C16"
+ ],
+ "level": "B(1)",
+ "tier": "wip",
+ "harness": "h_rb_remove",
+ "defines": [
+  "EXT2_CUSTOM_MEMORY_ROUTINES",
+  "RB_N=1",
+  "RB_NEW=0",
+  "RB_SCEN=3",
+  "RB_BITS=16"
+ ],
+ "unwind": 9,
+ "unwind_reason": "x",
+ "sources": [
+  "lib/ext2fs/rbtree.c"
+ ],
+ "functions": [
+  "lib/ext2fs/blkmap64_rb.c:rb_remove_extent",
+  "lib/ext2fs/blkmap64_rb.c:rb_unmark_bmap",
+  "lib/ext2fs/blkmap64_rb.c:rb_unmark_bmap_extent",
+  "lib/ext2fs/blkmap64_rb.c:rb_free_extent"
+ ],
+ "assumes": [
+  "x"
+ ],
+ "backend": "minisat",
+ "native": true,
+ "cbmc_flags": [
+  "--object-bits",
+  "10"
+ ],
+ "unwindset": {
+  "ext2fs_rb_next.0": 3,
+  "ext2fs_rb_next.1": 3,
+  "ext2fs_rb_erase.0": 1,
+  "__rb_erase_color.0": 1,
+  "rb_remove_extent.0": 3,
+  "rb_remove_extent.1": 3
+ },
+ "replace": [
+  "rb_insert_extent"
+ ]
+}
+*/
+/* VERIF-UNIT
+{
+ "name": "rb_resize_bmap_keep_n1",
+ "props": [
+  "C16"
+ ],
+ "level": "B(1)",
+ "tier": "wip",
+ "harness": "h_rb_resize",
+ "defines": [
+  "EXT2_CUSTOM_MEMORY_ROUTINES",
+  "RB_N=1",
+  "RB_NEW=0",
+  "RB_SCEN=1",
+  "RB_BITS=16"
+ ],
+ "unwind": 9,
+ "unwind_reason": "x",
+ "sources": [
+  "lib/ext2fs/rbtree.c"
+ ],
+ "functions": [
+  "lib/ext2fs/blkmap64_rb.c:rb_resize_bmap",
+  "lib/ext2fs/blkmap64_rb.c:rb_truncate",
+  "lib/ext2fs/blkmap64_rb.c:rb_insert_extent"
+ ],
+ "assumes": [
+  "x"
+ ],
+ "backend": "minisat",
+ "native": true,
+ "cbmc_flags": [
+  "--object-bits",
+  "10"
+ ],
+ "unwindset": {
+  "ext2fs_rb_next.0": 3,
+  "ext2fs_rb_next.1": 3,
+  "ext2fs_rb_prev.0": 3,
+  "ext2fs_rb_prev.1": 3,
+  "ext2fs_rb_last.0": 3,
+  "rb_insert_extent.0": 2,
+  "rb_insert_extent.1": 2,
+  "rb_truncate.0": 4
+ },
+ "replace": [
+  "ext2fs_rb_erase",
+  "ext2fs_rb_insert_color"
+ ]
+}
+*/
+/* VERIF-UNIT
+{
+ "name": "rb_resize_bmap_pad_n1",
+ "props": [
+  "C16"
+ ],
+ "level": "B(1)",
+ "tier": "wip",
+ "harness": "h_rb_resize",
+ "defines": [
+  "EXT2_CUSTOM_MEMORY_ROUTINES",
+  "RB_N=1",
+  "RB_NEW=1",
+  "RB_SCEN=2",
+  "RB_BITS=16"
+ ],
+ "unwind": 9,
+ "unwind_reason": "x",
+ "sources": [
+  "lib/ext2fs/rbtree.c"
+ ],
+ "functions": [
+  "lib/ext2fs/blkmap64_rb.c:rb_resize_bmap",
+  "lib/ext2fs/blkmap64_rb.c:rb_truncate",
+  "lib/ext2fs/blkmap64_rb.c:rb_insert_extent"
+ ],
+ "assumes": [
+  "x"
+ ],
+ "backend": "minisat",
+ "native": true,
+ "cbmc_flags": [
+  "--object-bits",
+  "10"
+ ],
+ "unwindset": {
+  "ext2fs_rb_next.0": 3,
+  "ext2fs_rb_next.1": 3,
+  "ext2fs_rb_prev.0": 3,
+  "ext2fs_rb_prev.1": 3,
+  "ext2fs_rb_last.0": 3,
+  "ext2fs_rb_insert_color.0": 1,
+  "rb_insert_extent.0": 2,
+  "rb_insert_extent.1": 2,
+  "rb_truncate.0": 4
+ },
+ "replace": [
+  "ext2fs_rb_erase"
+ ]
+}
+*/
+/* VERIF-UNIT
+{
+ "name": "rb_resize_bmap_cut_n1",
+ "props": [
+  "C16"
+ ],
+ "level": "B(1)",
+ "tier": "wip",
+ "harness": "h_rb_resize",
+ "defines": [
+  "EXT2_CUSTOM_MEMORY_ROUTINES",
+  "RB_N=1",
+  "RB_NEW=0",
+  "RB_SCEN=3",
+  "RB_BITS=16"
+ ],
+ "unwind": 9,
+ "unwind_reason": "x",
+ "sources": [
+  "lib/ext2fs/rbtree.c"
+ ],
+ "functions": [
+  "lib/ext2fs/blkmap64_rb.c:rb_resize_bmap",
+  "lib/ext2fs/blkmap64_rb.c:rb_truncate",
+  "lib/ext2fs/blkmap64_rb.c:rb_insert_extent"
+ ],
+ "assumes": [
+  "x"
+ ],
+ "backend": "minisat",
+ "native": true,
+ "cbmc_flags": [
+  "--object-bits",
+  "10"
+ ],
+ "unwindset": {
+  "ext2fs_rb_next.0": 3,
+  "ext2fs_rb_next.1": 3,
+  "ext2fs_rb_prev.0": 3,
+  "ext2fs_rb_prev.1": 3,
+  "ext2fs_rb_last.0": 3,
+  "ext2fs_rb_erase.0": 1,
+  "__rb_erase_color.0": 1,
+  "rb_insert_extent.0": 2,
+  "rb_insert_extent.1": 2,
+  "rb_truncate.0": 4
+ },
+ "replace": [
+  "ext2fs_rb_insert_color"
+ ]
+}
+*/
+/* VERIF-UNIT
+{
+ "name": "rb_resize_bmap_cutpad_n1",
+ "props": [
+  "C16"
+ ],
+ "level": "B(1)",
+ "tier": "wip",
+ "harness": "h_rb_resize",
+ "defines": [
+  "EXT2_CUSTOM_MEMORY_ROUTINES",
+  "RB_N=1",
+  "RB_NEW=1",
+  "RB_SCEN=4",
+  "RB_BITS=16"
+ ],
+ "unwind": 9,
+ "unwind_reason": "x",
+ "sources": [
+  "lib/ext2fs/rbtree.c"
+ ],
+ "functions": [
+  "lib/ext2fs/blkmap64_rb.c:rb_resize_bmap",
+  "lib/ext2fs/blkmap64_rb.c:rb_truncate",
+  "lib/ext2fs/blkmap64_rb.c:rb_insert_extent"
+ ],
+ "assumes": [
+  "x"
+ ],
+ "backend": "minisat",
+ "native": true,
+ "cbmc_flags": [
+  "--object-bits",
+  "10"
+ ],
+ "unwindset": {
+  "ext2fs_rb_next.0": 3,
+  "ext2fs_rb_next.1": 3,
+  "ext2fs_rb_prev.0": 3,
+  "ext2fs_rb_prev.1": 3,
+  "ext2fs_rb_last.0": 3,
+  "ext2fs_rb_erase.0": 1,
+  "__rb_erase_color.0": 1,
+  "ext2fs_rb_insert_color.0": 1,
+  "rb_insert_extent.0": 2,
+  "rb_insert_extent.1": 2,
+  "rb_truncate.0": 4
+ }
+}
+*/
+/* VERIF-UNIT
+{
+ "name": "rb_insert_extent_keep_n2",
+ "props": [
+  "C16"
+ ],
+ "level": "B(2)",
+ "tier": "wip",
+ "harness": "h_rb_insert",
+ "defines": [
+  "EXT2_CUSTOM_MEMORY_ROUTINES",
+  "RB_N=2",
+  "RB_NEW=0",
+  "RB_SCEN=1",
+  "RB_BITS=16"
+ ],
+ "unwind": 9,
+ "unwind_reason": "x",
+ "sources": [
+  "lib/ext2fs/rbtree.c"
+ ],
+ "functions": [
+  "lib/ext2fs/blkmap64_rb.c:rb_insert_extent",
+  "lib/ext2fs/blkmap64_rb.c:rb_mark_bmap",
+  "lib/ext2fs/blkmap64_rb.c:rb_mark_bmap_extent",
+  "lib/ext2fs/blkmap64_rb.c:rb_get_new_extent",
+  "lib/ext2fs/blkmap64_rb.c:rb_free_extent"
+ ],
+ "assumes": [
+  "x"
+ ],
+ "backend": "minisat",
+ "native": true,
+ "cbmc_flags": [
+  "--object-bits",
+  "10"
+ ],
+ "unwindset": {
+  "ext2fs_rb_next.0": 3,
+  "ext2fs_rb_next.1": 3,
+  "ext2fs_rb_prev.0": 3,
+  "ext2fs_rb_prev.1": 3,
+  "rb_insert_extent.0": 3,
+  "rb_insert_extent.1": 3
+ },
+ "replace": [
+  "ext2fs_rb_erase",
+  "ext2fs_rb_insert_color"
+ ]
+}
+*/
+/* VERIF-UNIT
+{
+ "name": "rb_insert_extent_new_n2",
+ "props": [
+  "C16"
+ ],
+ "level": "B(2)",
+ "tier": "wip",
+ "harness": "h_rb_insert",
+ "defines": [
+  "EXT2_CUSTOM_MEMORY_ROUTINES",
+  "RB_N=2",
+  "RB_NEW=1",
+  "RB_SCEN=2",
+  "RB_BITS=16"
+ ],
+ "unwind": 9,
+ "unwind_reason": "x",
+ "sources": [
+  "lib/ext2fs/rbtree.c"
+ ],
+ "functions": [
+  "lib/ext2fs/blkmap64_rb.c:rb_insert_extent",
+  "lib/ext2fs/blkmap64_rb.c:rb_mark_bmap",
+  "lib/ext2fs/blkmap64_rb.c:rb_mark_bmap_extent",
+  "lib/ext2fs/blkmap64_rb.c:rb_get_new_extent",
+  "lib/ext2fs/blkmap64_rb.c:rb_free_extent"
+ ],
+ "assumes": [
+  "x"
+ ],
+ "backend": "minisat",
+ "native": true,
+ "cbmc_flags": [
+  "--object-bits",
+  "10"
+ ],
+ "unwindset": {
+  "ext2fs_rb_next.0": 3,
+  "ext2fs_rb_next.1": 3,
+  "ext2fs_rb_prev.0": 3,
+  "ext2fs_rb_prev.1": 3,
+  "ext2fs_rb_insert_color.0": 2,
+  "rb_insert_extent.0": 3,
+  "rb_insert_extent.1": 3
+ },
+ "replace": [
+  "ext2fs_rb_erase"
+ ]
+}
+*/
+/* VERIF-UNIT
+{
+ "name": "rb_insert_extent_merge_n2",
+ "props": [
+  "C16"
+ ],
+ "level": "B(2)",
+ "tier": "wip",
+ "harness": "h_rb_insert",
+ "defines": [
+  "EXT2_CUSTOM_MEMORY_ROUTINES",
+  "RB_N=2",
+  "RB_NEW=0",
+  "RB_SCEN=3",
+  "RB_BITS=16"
+ ],
+ "unwind": 9,
+ "unwind_reason": "x",
+ "sources": [
+  "lib/ext2fs/rbtree.c"
+ ],
+ "functions": [
+  "lib/ext2fs/blkmap64_rb.c:rb_insert_extent",
+  "lib/ext2fs/blkmap64_rb.c:rb_mark_bmap",
+  "lib/ext2fs/blkmap64_rb.c:rb_mark_bmap_extent",
+  "lib/ext2fs/blkmap64_rb.c:rb_get_new_extent",
+  "lib/ext2fs/blkmap64_rb.c:rb_free_extent"
+ ],
+ "assumes": [
+  "x"
+ ],
+ "backend": "minisat",
+ "native": true,
+ "cbmc_flags": [
+  "--object-bits",
+  "10"
+ ],
+ "unwindset": {
+  "ext2fs_rb_next.0": 3,
+  "ext2fs_rb_next.1": 3,
+  "ext2fs_rb_prev.0": 3,
+  "ext2fs_rb_prev.1": 3,
+  "ext2fs_rb_erase.0": 2,
+  "__rb_erase_color.0": 2,
+  "rb_insert_extent.0": 3,
+  "rb_insert_extent.1": 3
+ },
+ "replace": [
+  "ext2fs_rb_insert_color"
+ ]
+}
+*/
+/* VERIF-UNIT
+{
+ "name": "rb_insert_extent_newmerge_n2",
+ "props": [
+  "C16"
+ ],
+ "level": "B(2)",
+ "tier": "wip",
+ "harness": "h_rb_insert",
+ "defines": [
+  "EXT2_CUSTOM_MEMORY_ROUTINES",
+  "RB_N=2",
+  "RB_NEW=1",
+  "RB_SCEN=4",
+  "RB_BITS=16"
+ ],
+ "unwind": 9,
+ "unwind_reason": "x",
+ "sources": [
+  "lib/ext2fs/rbtree.c"
+ ],
+ "functions": [
+  "lib/ext2fs/blkmap64_rb.c:rb_insert_extent",
+  "lib/ext2fs/blkmap64_rb.c:rb_mark_bmap",
+  "lib/ext2fs/blkmap64_rb.c:rb_mark_bmap_extent",
+  "lib/ext2fs/blkmap64_rb.c:rb_get_new_extent",
+  "lib/ext2fs/blkmap64_rb.c:rb_free_extent"
+ ],
+ "assumes": [
+  "x"
+ ],
+ "backend": "minisat",
+ "native": true,
+ "cbmc_flags": [
+  "--object-bits",
+  "10"
+ ],
+ "unwindset": {
+  "ext2fs_rb_next.0": 3,
+  "ext2fs_rb_next.1": 3,
+  "ext2fs_rb_prev.0": 3,
+  "ext2fs_rb_prev.1": 3,
+  "ext2fs_rb_erase.0": 2,
+  "__rb_erase_color.0": 2,
+  "ext2fs_rb_insert_color.0": 2,
+  "rb_insert_extent.0": 3,
+  "rb_insert_extent.1": 3
+ }
+}
+*/
+/* VERIF-UNIT
+{
+ "name": "rb_remove_extent_trunc_n2",
+ "props": [
+  "C16"
+ ],
+ "level": "B(2)",
+ "tier": "wip",
+ "harness": "h_rb_remove",
+ "defines": [
+  "EXT2_CUSTOM_MEMORY_ROUTINES",
+  "RB_N=2",
+  "RB_NEW=0",
+  "RB_SCEN=1",
+  "RB_BITS=16"
+ ],
+ "unwind": 9,
+ "unwind_reason": "x",
+ "sources": [
+  "lib/ext2fs/rbtree.c"
+ ],
+ "functions": [
+  "lib/ext2fs/blkmap64_rb.c:rb_remove_extent",
+  "lib/ext2fs/blkmap64_rb.c:rb_unmark_bmap",
+  "lib/ext2fs/blkmap64_rb.c:rb_unmark_bmap_extent",
+  "lib/ext2fs/blkmap64_rb.c:rb_free_extent"
+ ],
+ "assumes": [
+  "x"
+ ],
+ "backend": "minisat",
+ "native": true,
+ "cbmc_flags": [
+  "--object-bits",
+  "10"
+ ],
+ "unwindset": {
+  "ext2fs_rb_next.0": 3,
+  "ext2fs_rb_next.1": 3,
+  "rb_remove_extent.0": 4,
+  "rb_remove_extent.1": 4
+ },
+ "replace": [
+  "ext2fs_rb_erase",
+  "rb_insert_extent"
+ ]
+}
+*/
+/* VERIF-UNIT
+{
+ "name": "rb_remove_extent_split_n2",
+ "props": [
+  "C16"
+ ],
+ "level": "B(2)",
+ "tier": "wip",
+ "harness": "h_rb_remove",
+ "defines": [
+  "EXT2_CUSTOM_MEMORY_ROUTINES",
+  "RB_N=2",
+  "RB_NEW=1",
+  "RB_SCEN=2",
+  "RB_BITS=16"
+ ],
+ "unwind": 9,
+ "unwind_reason": "x",
+ "sources": [
+  "lib/ext2fs/rbtree.c"
+ ],
+ "functions": [
+  "lib/ext2fs/blkmap64_rb.c:rb_remove_extent",
+  "lib/ext2fs/blkmap64_rb.c:rb_unmark_bmap",
+  "lib/ext2fs/blkmap64_rb.c:rb_unmark_bmap_extent",
+  "lib/ext2fs/blkmap64_rb.c:rb_free_extent"
+ ],
+ "assumes": [
+  "x"
+ ],
+ "backend": "minisat",
+ "native": true,
+ "cbmc_flags": [
+  "--object-bits",
+  "10"
+ ],
+ "unwindset": {
+  "ext2fs_rb_next.0": 3,
+  "ext2fs_rb_next.1": 3,
+  "ext2fs_rb_prev.0": 3,
+  "ext2fs_rb_prev.1": 3,
+  "ext2fs_rb_insert_color.0": 2,
+  "rb_insert_extent.0": 3,
+  "rb_insert_extent.1": 3,
+  "rb_remove_extent.0": 4,
+  "rb_remove_extent.1": 4
+ },
+ "replace": [
+  "ext2fs_rb_erase"
+ ]
+}
+*/
+/* VERIF-UNIT
+{
+ "name": "rb_remove_extent_delete_n2",
+ "props": [
+  "C16"
+ ],
+ "level": "B(2)",
+ "tier": "wip",
+ "harness": "h_rb_remove",
+ "defines": [
+  "EXT2_CUSTOM_MEMORY_ROUTINES",
+  "RB_N=2",
+  "RB_NEW=0",
+  "RB_SCEN=3",
+  "RB_BITS=16"
+ ],
+ "unwind": 9,
+ "unwind_reason": "x",
+ "sources": [
+  "lib/ext2fs/rbtree.c"
+ ],
+ "functions": [
+  "lib/ext2fs/blkmap64_rb.c:rb_remove_extent",
+  "lib/ext2fs/blkmap64_rb.c:rb_unmark_bmap",
+  "lib/ext2fs/blkmap64_rb.c:rb_unmark_bmap_extent",
+  "lib/ext2fs/blkmap64_rb.c:rb_free_extent"
+ ],
+ "assumes": [
+  "x"
+ ],
+ "backend": "minisat",
+ "native": true,
+ "cbmc_flags": [
+  "--object-bits",
+  "10"
+ ],
+ "unwindset": {
+  "ext2fs_rb_next.0": 3,
+  "ext2fs_rb_next.1": 3,
+  "ext2fs_rb_erase.0": 2,
+  "__rb_erase_color.0": 2,
+  "rb_remove_extent.0": 4,
+  "rb_remove_extent.1": 4
+ },
+ "replace": [
+  "rb_insert_extent"
+ ]
+}
+*/
+/* VERIF-UNIT
+{
+ "name": "rb_resize_bmap_keep_n2",
+ "props": [
+  "C16"
+ ],
+ "level": "B(2)",
+ "tier": "wip",
+ "harness": "h_rb_resize",
+ "defines": [
+  "EXT2_CUSTOM_MEMORY_ROUTINES",
+  "RB_N=2",
+  "RB_NEW=0",
+  "RB_SCEN=1",
+  "RB_BITS=16"
+ ],
+ "unwind": 9,
+ "unwind_reason": "x",
+ "sources": [
+  "lib/ext2fs/rbtree.c"
+ ],
+ "functions": [
+  "lib/ext2fs/blkmap64_rb.c:rb_resize_bmap",
+  "lib/ext2fs/blkmap64_rb.c:rb_truncate",
+  "lib/ext2fs/blkmap64_rb.c:rb_insert_extent"
+ ],
+ "assumes": [
+  "x"
+ ],
+ "backend": "minisat",
+ "native": true,
+ "cbmc_flags": [
+  "--object-bits",
+  "10"
+ ],
+ "unwindset": {
+  "ext2fs_rb_next.0": 3,
+  "ext2fs_rb_next.1": 3,
+  "ext2fs_rb_prev.0": 3,
+  "ext2fs_rb_prev.1": 3,
+  "ext2fs_rb_last.0": 3,
+  "rb_insert_extent.0": 3,
+  "rb_insert_extent.1": 3,
+  "rb_truncate.0": 5
+ },
+ "replace": [
+  "ext2fs_rb_erase",
+  "ext2fs_rb_insert_color"
+ ]
+}
+*/
+/* VERIF-UNIT
+{
+ "name": "rb_resize_bmap_pad_n2",
+ "props": [
+  "C16"
+ ],
+ "level": "B(2)",
+ "tier": "wip",
+ "harness": "h_rb_resize",
+ "defines": [
+  "EXT2_CUSTOM_MEMORY_ROUTINES",
+  "RB_N=2",
+  "RB_NEW=1",
+  "RB_SCEN=2",
+  "RB_BITS=16"
+ ],
+ "unwind": 9,
+ "unwind_reason": "x",
+ "sources": [
+  "lib/ext2fs/rbtree.c"
+ ],
+ "functions": [
+  "lib/ext2fs/blkmap64_rb.c:rb_resize_bmap",
+  "lib/ext2fs/blkmap64_rb.c:rb_truncate",
+  "lib/ext2fs/blkmap64_rb.c:rb_insert_extent"
+ ],
+ "assumes": [
+  "x"
+ ],
+ "backend": "minisat",
+ "native": true,
+ "cbmc_flags": [
+  "--object-bits",
+  "10"
+ ],
+ "unwindset": {
+  "ext2fs_rb_next.0": 3,
+  "ext2fs_rb_next.1": 3,
+  "ext2fs_rb_prev.0": 3,
+  "ext2fs_rb_prev.1": 3,
+  "ext2fs_rb_last.0": 3,
+  "ext2fs_rb_insert_color.0": 2,
+  "rb_insert_extent.0": 3,
+  "rb_insert_extent.1": 3,
+  "rb_truncate.0": 5
+ },
+ "replace": [
+  "ext2fs_rb_erase"
+ ]
+}
+*/
+/* VERIF-UNIT
+{
+ "name": "rb_resize_bmap_cut_n2",
+ "props": [
+  "C16"
+ ],
+ "level": "B(2)",
+ "tier": "wip",
+ "harness": "h_rb_resize",
+ "defines": [
+  "EXT2_CUSTOM_MEMORY_ROUTINES",
+  "RB_N=2",
+  "RB_NEW=0",
+  "RB_SCEN=3",
+  "RB_BITS=16"
+ ],
+ "unwind": 9,
+ "unwind_reason": "x",
+ "sources": [
+  "lib/ext2fs/rbtree.c"
+ ],
+ "functions": [
+  "lib/ext2fs/blkmap64_rb.c:rb_resize_bmap",
+  "lib/ext2fs/blkmap64_rb.c:rb_truncate",
+  "lib/ext2fs/blkmap64_rb.c:rb_insert_extent"
+ ],
+ "assumes": [
+  "x"
+ ],
+ "backend": "minisat",
+ "native": true,
+ "cbmc_flags": [
+  "--object-bits",
+  "10"
+ ],
+ "unwindset": {
+  "ext2fs_rb_next.0": 3,
+  "ext2fs_rb_next.1": 3,
+  "ext2fs_rb_prev.0": 3,
+  "ext2fs_rb_prev.1": 3,
+  "ext2fs_rb_last.0": 3,
+  "ext2fs_rb_erase.0": 2,
+  "__rb_erase_color.0": 2,
+  "rb_insert_extent.0": 3,
+  "rb_insert_extent.1": 3,
+  "rb_truncate.0": 5
+ },
+ "replace": [
+  "ext2fs_rb_insert_color"
+ ]
+}
+*/
+/* VERIF-UNIT
+{
+ "name": "rb_resize_bmap_cutpad_n2",
+ "props": [
+  "C16"
+ ],
+ "level": "B(2)",
+ "tier": "wip",
+ "harness": "h_rb_resize",
+ "defines": [
+  "EXT2_CUSTOM_MEMORY_ROUTINES",
+  "RB_N=2",
+  "RB_NEW=1",
+  "RB_SCEN=4",
+  "RB_BITS=16"
+ ],
+ "unwind": 9,
+ "unwind_reason": "x",
+ "sources": [
+  "lib/ext2fs/rbtree.c"
+ ],
+ "functions": [
+  "lib/ext2fs/blkmap64_rb.c:rb_resize_bmap",
+  "lib/ext2fs/blkmap64_rb.c:rb_truncate",
+  "lib/ext2fs/blkmap64_rb.c:rb_insert_extent"
+ ],
+ "assumes": [
+  "x"
+ ],
+ "backend": "minisat",
+ "native": true,
+ "cbmc_flags": [
+  "--object-bits",
+  "10"
+ ],
+ "unwindset": {
+  "ext2fs_rb_next.0": 3,
+  "ext2fs_rb_next.1": 3,
+  "ext2fs_rb_prev.0": 3,
+  "ext2fs_rb_prev.1": 3,
+  "ext2fs_rb_last.0": 3,
+  "ext2fs_rb_erase.0": 2,
+  "__rb_erase_color.0": 2,
+  "ext2fs_rb_insert_color.0": 2,
+  "rb_insert_extent.0": 3,
+  "rb_insert_extent.1": 3,
+  "rb_truncate.0": 5
+ }
+}
+*/
+/* VERIF-UNIT
+{
+ "name": "rb_insert_extent_keep_n3",
+ "props": [
+  "C16"
+ ],
+ "level": "B(3)",
+ "tier": "wip",
+ "harness": "h_rb_insert",
+ "defines": [
+  "EXT2_CUSTOM_MEMORY_ROUTINES",
+  "RB_N=3",
+  "RB_NEW=0",
+  "RB_SCEN=1",
+  "RB_BITS=16"
+ ],
+ "unwind": 9,
+ "unwind_reason": "x",
+ "sources": [
+  "lib/ext2fs/rbtree.c"
+ ],
+ "functions": [
+  "lib/ext2fs/blkmap64_rb.c:rb_insert_extent",
+  "lib/ext2fs/blkmap64_rb.c:rb_mark_bmap",
+  "lib/ext2fs/blkmap64_rb.c:rb_mark_bmap_extent",
+  "lib/ext2fs/blkmap64_rb.c:rb_get_new_extent",
+  "lib/ext2fs/blkmap64_rb.c:rb_free_extent"
+ ],
+ "assumes": [
+  "x"
+ ],
+ "backend": "minisat",
+ "native": true,
+ "cbmc_flags": [
+  "--object-bits",
+  "10"
+ ],
+ "unwindset": {
+  "ext2fs_rb_next.0": 4,
+  "ext2fs_rb_next.1": 4,
+  "ext2fs_rb_prev.0": 4,
+  "ext2fs_rb_prev.1": 4,
+  "rb_insert_extent.0": 3,
+  "rb_insert_extent.1": 4
+ },
+ "replace": [
+  "ext2fs_rb_erase",
+  "ext2fs_rb_insert_color"
+ ]
+}
+*/
+/* VERIF-UNIT
+{
+ "name": "rb_insert_extent_new_n3",
+ "props": [
+  "C16"
+ ],
+ "level": "B(3)",
+ "tier": "wip",
+ "harness": "h_rb_insert",
+ "defines": [
+  "EXT2_CUSTOM_MEMORY_ROUTINES",
+  "RB_N=3",
+  "RB_NEW=1",
+  "RB_SCEN=2",
+  "RB_BITS=16"
+ ],
+ "unwind": 9,
+ "unwind_reason": "x",
+ "sources": [
+  "lib/ext2fs/rbtree.c"
+ ],
+ "functions": [
+  "lib/ext2fs/blkmap64_rb.c:rb_insert_extent",
+  "lib/ext2fs/blkmap64_rb.c:rb_mark_bmap",
+  "lib/ext2fs/blkmap64_rb.c:rb_mark_bmap_extent",
+  "lib/ext2fs/blkmap64_rb.c:rb_get_new_extent",
+  "lib/ext2fs/blkmap64_rb.c:rb_free_extent"
+ ],
+ "assumes": [
+  "x"
+ ],
+ "backend": "minisat",
+ "native": true,
+ "cbmc_flags": [
+  "--object-bits",
+  "10"
+ ],
+ "unwindset": {
+  "ext2fs_rb_next.0": 4,
+  "ext2fs_rb_next.1": 4,
+  "ext2fs_rb_prev.0": 4,
+  "ext2fs_rb_prev.1": 4,
+  "ext2fs_rb_insert_color.0": 2,
+  "rb_insert_extent.0": 3,
+  "rb_insert_extent.1": 4
+ },
+ "replace": [
+  "ext2fs_rb_erase"
+ ]
+}
+*/
+/* VERIF-UNIT
+{
+ "name": "rb_insert_extent_merge_n3",
+ "props": [
+  "C16"
+ ],
+ "level": "B(3)",
+ "tier": "wip",
+ "harness": "h_rb_insert",
+ "defines": [
+  "EXT2_CUSTOM_MEMORY_ROUTINES",
+  "RB_N=3",
+  "RB_NEW=0",
+  "RB_SCEN=3",
+  "RB_BITS=16"
+ ],
+ "unwind": 9,
+ "unwind_reason": "x",
+ "sources": [
+  "lib/ext2fs/rbtree.c"
+ ],
+ "functions": [
+  "lib/ext2fs/blkmap64_rb.c:rb_insert_extent",
+  "lib/ext2fs/blkmap64_rb.c:rb_mark_bmap",
+  "lib/ext2fs/blkmap64_rb.c:rb_mark_bmap_extent",
+  "lib/ext2fs/blkmap64_rb.c:rb_get_new_extent",
+  "lib/ext2fs/blkmap64_rb.c:rb_free_extent"
+ ],
+ "assumes": [
+  "x"
+ ],
+ "backend": "minisat",
+ "native": true,
+ "cbmc_flags": [
+  "--object-bits",
+  "10"
+ ],
+ "unwindset": {
+  "ext2fs_rb_next.0": 4,
+  "ext2fs_rb_next.1": 4,
+  "ext2fs_rb_prev.0": 4,
+  "ext2fs_rb_prev.1": 4,
+  "ext2fs_rb_erase.0": 2,
+  "__rb_erase_color.0": 2,
+  "rb_insert_extent.0": 3,
+  "rb_insert_extent.1": 4
+ },
+ "replace": [
+  "ext2fs_rb_insert_color"
+ ]
+}
+*/
+/* VERIF-UNIT
+{
+ "name": "rb_insert_extent_newmerge_n3",
+ "props": [
+  "C16"
+ ],
+ "level": "B(3)",
+ "tier": "wip",
+ "harness": "h_rb_insert",
+ "defines": [
+  "EXT2_CUSTOM_MEMORY_ROUTINES",
+  "RB_N=3",
+  "RB_NEW=1",
+  "RB_SCEN=4",
+  "RB_BITS=16"
+ ],
+ "unwind": 9,
+ "unwind_reason": "x",
+ "sources": [
+  "lib/ext2fs/rbtree.c"
+ ],
+ "functions": [
+  "lib/ext2fs/blkmap64_rb.c:rb_insert_extent",
+  "lib/ext2fs/blkmap64_rb.c:rb_mark_bmap",
+  "lib/ext2fs/blkmap64_rb.c:rb_mark_bmap_extent",
+  "lib/ext2fs/blkmap64_rb.c:rb_get_new_extent",
+  "lib/ext2fs/blkmap64_rb.c:rb_free_extent"
+ ],
+ "assumes": [
+  "x"
+ ],
+ "backend": "minisat",
+ "native": true,
+ "cbmc_flags": [
+  "--object-bits",
+  "10"
+ ],
+ "unwindset": {
+  "ext2fs_rb_next.0": 4,
+  "ext2fs_rb_next.1": 4,
+  "ext2fs_rb_prev.0": 4,
+  "ext2fs_rb_prev.1": 4,
+  "ext2fs_rb_erase.0": 2,
+  "__rb_erase_color.0": 2,
+  "ext2fs_rb_insert_color.0": 2,
+  "rb_insert_extent.0": 3,
+  "rb_insert_extent.1": 4
+ }
+}
+*/
+/* VERIF-UNIT
+{
+ "name": "rb_remove_extent_trunc_n3",
+ "props": [
+  "C16"
+ ],
+ "level": "B(3)",
+ "tier": "wip",
+ "harness": "h_rb_remove",
+ "defines": [
+  "EXT2_CUSTOM_MEMORY_ROUTINES",
+  "RB_N=3",
+  "RB_NEW=0",
+  "RB_SCEN=1",
+  "RB_BITS=16"
+ ],
+ "unwind": 9,
+ "unwind_reason": "x",
+ "sources": [
+  "lib/ext2fs/rbtree.c"
+ ],
+ "functions": [
+  "lib/ext2fs/blkmap64_rb.c:rb_remove_extent",
+  "lib/ext2fs/blkmap64_rb.c:rb_unmark_bmap",
+  "lib/ext2fs/blkmap64_rb.c:rb_unmark_bmap_extent",
+  "lib/ext2fs/blkmap64_rb.c:rb_free_extent"
+ ],
+ "assumes": [
+  "x"
+ ],
+ "backend": "minisat",
+ "native": true,
+ "cbmc_flags": [
+  "--object-bits",
+  "10"
+ ],
+ "unwindset": {
+  "ext2fs_rb_next.0": 4,
+  "ext2fs_rb_next.1": 4,
+  "rb_remove_extent.0": 4,
+  "rb_remove_extent.1": 5
+ },
+ "replace": [
+  "ext2fs_rb_erase",
+  "rb_insert_extent"
+ ]
+}
+*/
+/* VERIF-UNIT
+{
+ "name": "rb_remove_extent_split_n3",
+ "props": [
+  "C16"
+ ],
+ "level": "B(3)",
+ "tier": "wip",
+ "harness": "h_rb_remove",
+ "defines": [
+  "EXT2_CUSTOM_MEMORY_ROUTINES",
+  "RB_N=3",
+  "RB_NEW=1",
+  "RB_SCEN=2",
+  "RB_BITS=16"
+ ],
+ "unwind": 9,
+ "unwind_reason": "x",
+ "sources": [
+  "lib/ext2fs/rbtree.c"
+ ],
+ "functions": [
+  "lib/ext2fs/blkmap64_rb.c:rb_remove_extent",
+  "lib/ext2fs/blkmap64_rb.c:rb_unmark_bmap",
+  "lib/ext2fs/blkmap64_rb.c:rb_unmark_bmap_extent",
+  "lib/ext2fs/blkmap64_rb.c:rb_free_extent"
+ ],
+ "assumes": [
+  "x"
+ ],
+ "backend": "minisat",
+ "native": true,
+ "cbmc_flags": [
+  "--object-bits",
+  "10"
+ ],
+ "unwindset": {
+  "ext2fs_rb_next.0": 4,
+  "ext2fs_rb_next.1": 4,
+  "ext2fs_rb_prev.0": 4,
+  "ext2fs_rb_prev.1": 4,
+  "ext2fs_rb_insert_color.0": 2,
+  "rb_insert_extent.0": 3,
+  "rb_insert_extent.1": 4,
+  "rb_remove_extent.0": 4,
+  "rb_remove_extent.1": 5
+ },
+ "replace": [
+  "ext2fs_rb_erase"
+ ]
+}
+*/
+/* VERIF-UNIT
+{
+ "name": "rb_remove_extent_delete_n3",
+ "props": [
+  "C16"
+ ],
+ "level": "B(3)",
+ "tier": "wip",
+ "harness": "h_rb_remove",
+ "defines": [
+  "EXT2_CUSTOM_MEMORY_ROUTINES",
+  "RB_N=3",
+  "RB_NEW=0",
+  "RB_SCEN=3",
+  "RB_BITS=16"
+ ],
+ "unwind": 9,
+ "unwind_reason": "x",
+ "sources": [
+  "lib/ext2fs/rbtree.c"
+ ],
+ "functions": [
+  "lib/ext2fs/blkmap64_rb.c:rb_remove_extent",
+  "lib/ext2fs/blkmap64_rb.c:rb_unmark_bmap",
+  "lib/ext2fs/blkmap64_rb.c:rb_unmark_bmap_extent",
+  "lib/ext2fs/blkmap64_rb.c:rb_free_extent"
+ ],
+ "assumes": [
+  "x"
+ ],
+ "backend": "minisat",
+ "native": true,
+ "cbmc_flags": [
+  "--object-bits",
+  "10"
+ ],
+ "unwindset": {
+  "ext2fs_rb_next.0": 4,
+  "ext2fs_rb_next.1": 4,
+  "ext2fs_rb_erase.0": 2,
+  "__rb_erase_color.0": 2,
+  "rb_remove_extent.0": 4,
+  "rb_remove_extent.1": 5
+ },
+ "replace": [
+  "rb_insert_extent"
+ ]
+}
+*/
+/* VERIF-UNIT
+{
+ "name": "rb_resize_bmap_keep_n3",
+ "props": [
+  "C16"
+ ],
+ "level": "B(3)",
+ "tier": "wip",
+ "harness": "h_rb_resize",
+ "defines": [
+  "EXT2_CUSTOM_MEMORY_ROUTINES",
+  "RB_N=3",
+  "RB_NEW=0",
+  "RB_SCEN=1",
+  "RB_BITS=16"
+ ],
+ "unwind": 9,
+ "unwind_reason": "x",
+ "sources": [
+  "lib/ext2fs/rbtree.c"
+ ],
+ "functions": [
+  "lib/ext2fs/blkmap64_rb.c:rb_resize_bmap",
+  "lib/ext2fs/blkmap64_rb.c:rb_truncate",
+  "lib/ext2fs/blkmap64_rb.c:rb_insert_extent"
+ ],
+ "assumes": [
+  "x"
+ ],
+ "backend": "minisat",
+ "native": true,
+ "cbmc_flags": [
+  "--object-bits",
+  "10"
+ ],
+ "unwindset": {
+  "ext2fs_rb_next.0": 4,
+  "ext2fs_rb_next.1": 4,
+  "ext2fs_rb_prev.0": 4,
+  "ext2fs_rb_prev.1": 4,
+  "ext2fs_rb_last.0": 4,
+  "rb_insert_extent.0": 3,
+  "rb_insert_extent.1": 4,
+  "rb_truncate.0": 6
+ },
+ "replace": [
+  "ext2fs_rb_erase",
+  "ext2fs_rb_insert_color"
+ ]
+}
+*/
+/* VERIF-UNIT
+{
+ "name": "rb_resize_bmap_pad_n3",
+ "props": [
+  "C16"
+ ],
+ "level": "B(3)",
+ "tier": "wip",
+ "harness": "h_rb_resize",
+ "defines": [
+  "EXT2_CUSTOM_MEMORY_ROUTINES",
+  "RB_N=3",
+  "RB_NEW=1",
+  "RB_SCEN=2",
+  "RB_BITS=16"
+ ],
+ "unwind": 9,
+ "unwind_reason": "x",
+ "sources": [
+  "lib/ext2fs/rbtree.c"
+ ],
+ "functions": [
+  "lib/ext2fs/blkmap64_rb.c:rb_resize_bmap",
+  "lib/ext2fs/blkmap64_rb.c:rb_truncate",
+  "lib/ext2fs/blkmap64_rb.c:rb_insert_extent"
+ ],
+ "assumes": [
+  "x"
+ ],
+ "backend": "minisat",
+ "native": true,
+ "cbmc_flags": [
+  "--object-bits",
+  "10"
+ ],
+ "unwindset": {
+  "ext2fs_rb_next.0": 4,
+  "ext2fs_rb_next.1": 4,
+  "ext2fs_rb_prev.0": 4,
+  "ext2fs_rb_prev.1": 4,
+  "ext2fs_rb_last.0": 4,
+  "ext2fs_rb_insert_color.0": 2,
+  "rb_insert_extent.0": 3,
+  "rb_insert_extent.1": 4,
+  "rb_truncate.0": 6
+ },
+ "replace": [
+  "ext2fs_rb_erase"
+ ]
+}
+*/
+/* VERIF-UNIT
+{
+ "name": "rb_resize_bmap_cut_n3",
+ "props": [
+  "C16"
+ ],
+ "level": "B(3)",
+ "tier": "wip",
+ "harness": "h_rb_resize",
+ "defines": [
+  "EXT2_CUSTOM_MEMORY_ROUTINES",
+  "RB_N=3",
+  "RB_NEW=0",
+  "RB_SCEN=3",
+  "RB_BITS=16"
+ ],
+ "unwind": 9,
+ "unwind_reason": "x",
+ "sources": [
+  "lib/ext2fs/rbtree.c"
+ ],
+ "functions": [
+  "lib/ext2fs/blkmap64_rb.c:rb_resize_bmap",
+  "lib/ext2fs/blkmap64_rb.c:rb_truncate",
+  "lib/ext2fs/blkmap64_rb.c:rb_insert_extent"
+ ],
+ "assumes": [
+  "x"
+ ],
+ "backend": "minisat",
+ "native": true,
+ "cbmc_flags": [
+  "--object-bits",
+  "10"
+ ],
+ "unwindset": {
+  "ext2fs_rb_next.0": 4,
+  "ext2fs_rb_next.1": 4,
+  "ext2fs_rb_prev.0": 4,
+  "ext2fs_rb_prev.1": 4,
+  "ext2fs_rb_last.0": 4,
+  "ext2fs_rb_erase.0": 2,
+  "__rb_erase_color.0": 2,
+  "rb_insert_extent.0": 3,
+  "rb_insert_extent.1": 4,
+  "rb_truncate.0": 6
+ },
+ "replace": [
+  "ext2fs_rb_insert_color"
+ ]
+}
+*/
+/* VERIF-UNIT
+{
+ "name": "rb_resize_bmap_cutpad_n3",
+ "props": [
+  "C16"
+ ],
+ "level": "B(3)",
+ "tier": "wip",
+ "harness": "h_rb_resize",
+ "defines": [
+  "EXT2_CUSTOM_MEMORY_ROUTINES",
+  "RB_N=3",
+  "RB_NEW=1",
+  "RB_SCEN=4",
+  "RB_BITS=16"
+ ],
+ "unwind": 9,
+ "unwind_reason": "x",
+ "sources": [
+  "lib/ext2fs/rbtree.c"
+ ],
+ "functions": [
+  "lib/ext2fs/blkmap64_rb.c:rb_resize_bmap",
+  "lib/ext2fs/blkmap64_rb.c:rb_truncate",
+  "lib/ext2fs/blkmap64_rb.c:rb_insert_extent"
+ ],
+ "assumes": [
+  "x"
+ ],
+ "backend": "minisat",
+ "native": true,
+ "cbmc_flags": [
+  "--object-bits",
+  "10"
+ ],
+ "unwindset": {
+  "ext2fs_rb_next.0": 4,
+  "ext2fs_rb_next.1": 4,
+  "ext2fs_rb_prev.0": 4,
+  "ext2fs_rb_prev.1": 4,
+  "ext2fs_rb_last.0": 4,
+  "ext2fs_rb_erase.0": 2,
+  "__rb_erase_color.0": 2,
+  "ext2fs_rb_insert_color.0": 2,
+  "rb_insert_extent.0": 3,
+  "rb_insert_extent.1": 4,
+  "rb_truncate.0": 6
+ }
+}
+*/
+/* VERIF-UNIT
+{
+ "name": "rb_insert_extent_keep_n4",
+ "props": [
+  "C16"
+ ],
+ "level": "B(4)",
+ "tier": "wip",
+ "harness": "h_rb_insert",
+ "defines": [
+  "EXT2_CUSTOM_MEMORY_ROUTINES",
+  "RB_N=4",
+  "RB_NEW=0",
+  "RB_SCEN=1",
+  "RB_BITS=16"
+ ],
+ "unwind": 9,
+ "unwind_reason": "x",
+ "sources": [
+  "lib/ext2fs/rbtree.c"
+ ],
+ "functions": [
+  "lib/ext2fs/blkmap64_rb.c:rb_insert_extent",
+  "lib/ext2fs/blkmap64_rb.c:rb_mark_bmap",
+  "lib/ext2fs/blkmap64_rb.c:rb_mark_bmap_extent",
+  "lib/ext2fs/blkmap64_rb.c:rb_get_new_extent",
+  "lib/ext2fs/blkmap64_rb.c:rb_free_extent"
+ ],
+ "assumes": [
+  "x"
+ ],
+ "backend": "minisat",
+ "native": true,
+ "cbmc_flags": [
+  "--object-bits",
+  "10"
+ ],
+ "unwindset": {
+  "ext2fs_rb_next.0": 4,
+  "ext2fs_rb_next.1": 4,
+  "ext2fs_rb_prev.0": 4,
+  "ext2fs_rb_prev.1": 4,
+  "rb_insert_extent.0": 4,
+  "rb_insert_extent.1": 5
+ },
+ "replace": [
+  "ext2fs_rb_erase",
+  "ext2fs_rb_insert_color"
+ ]
+}
+*/
+/* VERIF-UNIT
+{
+ "name": "rb_insert_extent_new_n4",
+ "props": [
+  "C16"
+ ],
+ "level": "B(4)",
+ "tier": "wip",
+ "harness": "h_rb_insert",
+ "defines": [
+  "EXT2_CUSTOM_MEMORY_ROUTINES",
+  "RB_N=4",
+  "RB_NEW=1",
+  "RB_SCEN=2",
+  "RB_BITS=16"
+ ],
+ "unwind": 9,
+ "unwind_reason": "x",
+ "sources": [
+  "lib/ext2fs/rbtree.c"
+ ],
+ "functions": [
+  "lib/ext2fs/blkmap64_rb.c:rb_insert_extent",
+  "lib/ext2fs/blkmap64_rb.c:rb_mark_bmap",
+  "lib/ext2fs/blkmap64_rb.c:rb_mark_bmap_extent",
+  "lib/ext2fs/blkmap64_rb.c:rb_get_new_extent",
+  "lib/ext2fs/blkmap64_rb.c:rb_free_extent"
+ ],
+ "assumes": [
+  "x"
+ ],
+ "backend": "minisat",
+ "native": true,
+ "cbmc_flags": [
+  "--object-bits",
+  "10"
+ ],
+ "unwindset": {
+  "ext2fs_rb_next.0": 4,
+  "ext2fs_rb_next.1": 4,
+  "ext2fs_rb_prev.0": 4,
+  "ext2fs_rb_prev.1": 4,
+  "ext2fs_rb_insert_color.0": 2,
+  "rb_insert_extent.0": 4,
+  "rb_insert_extent.1": 5
+ },
+ "replace": [
+  "ext2fs_rb_erase"
+ ]
+}
+*/
+/* VERIF-UNIT
+{
+ "name": "rb_insert_extent_merge_n4",
+ "props": [
+  "C16"
+ ],
+ "level": "B(4)",
+ "tier": "wip",
+ "harness": "h_rb_insert",
+ "defines": [
+  "EXT2_CUSTOM_MEMORY_ROUTINES",
+  "RB_N=4",
+  "RB_NEW=0",
+  "RB_SCEN=3",
+  "RB_BITS=16"
+ ],
+ "unwind": 9,
+ "unwind_reason": "x",
+ "sources": [
+  "lib/ext2fs/rbtree.c"
+ ],
+ "functions": [
+  "lib/ext2fs/blkmap64_rb.c:rb_insert_extent",
+  "lib/ext2fs/blkmap64_rb.c:rb_mark_bmap",
+  "lib/ext2fs/blkmap64_rb.c:rb_mark_bmap_extent",
+  "lib/ext2fs/blkmap64_rb.c:rb_get_new_extent",
+  "lib/ext2fs/blkmap64_rb.c:rb_free_extent"
+ ],
+ "assumes": [
+  "x"
+ ],
+ "backend": "minisat",
+ "native": true,
+ "cbmc_flags": [
+  "--object-bits",
+  "10"
+ ],
+ "unwindset": {
+  "ext2fs_rb_next.0": 4,
+  "ext2fs_rb_next.1": 4,
+  "ext2fs_rb_prev.0": 4,
+  "ext2fs_rb_prev.1": 4,
+  "ext2fs_rb_erase.0": 3,
+  "__rb_erase_color.0": 3,
+  "rb_insert_extent.0": 4,
+  "rb_insert_extent.1": 5
+ },
+ "replace": [
+  "ext2fs_rb_insert_color"
+ ]
+}
+*/
+/* VERIF-UNIT
+{
+ "name": "rb_insert_extent_newmerge_n4",
+ "props": [
+  "C16"
+ ],
+ "level": "B(4)",
+ "tier": "wip",
+ "harness": "h_rb_insert",
+ "defines": [
+  "EXT2_CUSTOM_MEMORY_ROUTINES",
+  "RB_N=4",
+  "RB_NEW=1",
+  "RB_SCEN=4",
+  "RB_BITS=16"
+ ],
+ "unwind": 9,
+ "unwind_reason": "x",
+ "sources": [
+  "lib/ext2fs/rbtree.c"
+ ],
+ "functions": [
+  "lib/ext2fs/blkmap64_rb.c:rb_insert_extent",
+  "lib/ext2fs/blkmap64_rb.c:rb_mark_bmap",
+  "lib/ext2fs/blkmap64_rb.c:rb_mark_bmap_extent",
+  "lib/ext2fs/blkmap64_rb.c:rb_get_new_extent",
+  "lib/ext2fs/blkmap64_rb.c:rb_free_extent"
+ ],
+ "assumes": [
+  "x"
+ ],
+ "backend": "minisat",
+ "native": true,
+ "cbmc_flags": [
+  "--object-bits",
+  "10"
+ ],
+ "unwindset": {
+  "ext2fs_rb_next.0": 4,
+  "ext2fs_rb_next.1": 4,
+  "ext2fs_rb_prev.0": 4,
+  "ext2fs_rb_prev.1": 4,
+  "ext2fs_rb_erase.0": 3,
+  "__rb_erase_color.0": 3,
+  "ext2fs_rb_insert_color.0": 2,
+  "rb_insert_extent.0": 4,
+  "rb_insert_extent.1": 5
+ }
+}
+*/
+/* VERIF-UNIT
+{
+ "name": "rb_remove_extent_trunc_n4",
+ "props": [
+  "C16"
+ ],
+ "level": "B(4)",
+ "tier": "wip",
+ "harness": "h_rb_remove",
+ "defines": [
+  "EXT2_CUSTOM_MEMORY_ROUTINES",
+  "RB_N=4",
+  "RB_NEW=0",
+  "RB_SCEN=1",
+  "RB_BITS=16"
+ ],
+ "unwind": 9,
+ "unwind_reason": "x",
+ "sources": [
+  "lib/ext2fs/rbtree.c"
+ ],
+ "functions": [
+  "lib/ext2fs/blkmap64_rb.c:rb_remove_extent",
+  "lib/ext2fs/blkmap64_rb.c:rb_unmark_bmap",
+  "lib/ext2fs/blkmap64_rb.c:rb_unmark_bmap_extent",
+  "lib/ext2fs/blkmap64_rb.c:rb_free_extent"
+ ],
+ "assumes": [
+  "x"
+ ],
+ "backend": "minisat",
+ "native": true,
+ "cbmc_flags": [
+  "--object-bits",
+  "10"
+ ],
+ "unwindset": {
+  "ext2fs_rb_next.0": 4,
+  "ext2fs_rb_next.1": 4,
+  "rb_remove_extent.0": 5,
+  "rb_remove_extent.1": 6
+ },
+ "replace": [
+  "ext2fs_rb_erase",
+  "rb_insert_extent"
+ ]
+}
+*/
+/* VERIF-UNIT
+{
+ "name": "rb_remove_extent_split_n4",
+ "props": [
+  "C16"
+ ],
+ "level": "B(4)",
+ "tier": "wip",
+ "harness": "h_rb_remove",
+ "defines": [
+  "EXT2_CUSTOM_MEMORY_ROUTINES",
+  "RB_N=4",
+  "RB_NEW=1",
+  "RB_SCEN=2",
+  "RB_BITS=16"
+ ],
+ "unwind": 9,
+ "unwind_reason": "x",
+ "sources": [
+  "lib/ext2fs/rbtree.c"
+ ],
+ "functions": [
+  "lib/ext2fs/blkmap64_rb.c:rb_remove_extent",
+  "lib/ext2fs/blkmap64_rb.c:rb_unmark_bmap",
+  "lib/ext2fs/blkmap64_rb.c:rb_unmark_bmap_extent",
+  "lib/ext2fs/blkmap64_rb.c:rb_free_extent"
+ ],
+ "assumes": [
+  "x"
+ ],
+ "backend": "minisat",
+ "native": true,
+ "cbmc_flags": [
+  "--object-bits",
+  "10"
+ ],
+ "unwindset": {
+  "ext2fs_rb_next.0": 4,
+  "ext2fs_rb_next.1": 4,
+  "ext2fs_rb_prev.0": 4,
+  "ext2fs_rb_prev.1": 4,
+  "ext2fs_rb_insert_color.0": 2,
+  "rb_insert_extent.0": 4,
+  "rb_insert_extent.1": 5,
+  "rb_remove_extent.0": 5,
+  "rb_remove_extent.1": 6
+ },
+ "replace": [
+  "ext2fs_rb_erase"
+ ]
+}
+*/
+/* VERIF-UNIT
+{
+ "name": "rb_remove_extent_delete_n4",
+ "props": [
+  "C16"
+ ],
+ "level": "B(4)",
+ "tier": "wip",
+ "harness": "h_rb_remove",
+ "defines": [
+  "EXT2_CUSTOM_MEMORY_ROUTINES",
+  "RB_N=4",
+  "RB_NEW=0",
+  "RB_SCEN=3",
+  "RB_BITS=16"
+ ],
+ "unwind": 9,
+ "unwind_reason": "x",
+ "sources": [
+  "lib/ext2fs/rbtree.c"
+ ],
+ "functions": [
+  "lib/ext2fs/blkmap64_rb.c:rb_remove_extent",
+  "lib/ext2fs/blkmap64_rb.c:rb_unmark_bmap",
+  "lib/ext2fs/blkmap64_rb.c:rb_unmark_bmap_extent",
+  "lib/ext2fs/blkmap64_rb.c:rb_free_extent"
+ ],
+ "assumes": [
+  "x"
+ ],
+ "backend": "minisat",
+ "native": true,
+ "cbmc_flags": [
+  "--object-bits",
+  "10"
+ ],
+ "unwindset": {
+  "ext2fs_rb_next.0": 4,
+  "ext2fs_rb_next.1": 4,
+  "ext2fs_rb_erase.0": 3,
+  "__rb_erase_color.0": 3,
+  "rb_remove_extent.0": 5,
+  "rb_remove_extent.1": 6
+ },
+ "replace": [
+  "rb_insert_extent"
+ ]
+}
+*/
+/* VERIF-UNIT
+{
+ "name": "rb_resize_bmap_keep_n4",
+ "props": [
+  "C16"
+ ],
+ "level": "B(4)",
+ "tier": "wip",
+ "harness": "h_rb_resize",
+ "defines": [
+  "EXT2_CUSTOM_MEMORY_ROUTINES",
+  "RB_N=4",
+  "RB_NEW=0",
+  "RB_SCEN=1",
+  "RB_BITS=16"
+ ],
+ "unwind": 9,
+ "unwind_reason": "x",
+ "sources": [
+  "lib/ext2fs/rbtree.c"
+ ],
+ "functions": [
+  "lib/ext2fs/blkmap64_rb.c:rb_resize_bmap",
+  "lib/ext2fs/blkmap64_rb.c:rb_truncate",
+  "lib/ext2fs/blkmap64_rb.c:rb_insert_extent"
+ ],
+ "assumes": [
+  "x"
+ ],
+ "backend": "minisat",
+ "native": true,
+ "cbmc_flags": [
+  "--object-bits",
+  "10"
+ ],
+ "unwindset": {
+  "ext2fs_rb_next.0": 4,
+  "ext2fs_rb_next.1": 4,
+  "ext2fs_rb_prev.0": 4,
+  "ext2fs_rb_prev.1": 4,
+  "ext2fs_rb_last.0": 4,
+  "rb_insert_extent.0": 4,
+  "rb_insert_extent.1": 5,
+  "rb_truncate.0": 7
+ },
+ "replace": [
+  "ext2fs_rb_erase",
+  "ext2fs_rb_insert_color"
+ ]
+}
+*/
+/* VERIF-UNIT
+{
+ "name": "rb_resize_bmap_pad_n4",
+ "props": [
+  "C16"
+ ],
+ "level": "B(4)",
+ "tier": "wip",
+ "harness": "h_rb_resize",
+ "defines": [
+  "EXT2_CUSTOM_MEMORY_ROUTINES",
+  "RB_N=4",
+  "RB_NEW=1",
+  "RB_SCEN=2",
+  "RB_BITS=16"
+ ],
+ "unwind": 9,
+ "unwind_reason": "x",
+ "sources": [
+  "lib/ext2fs/rbtree.c"
+ ],
+ "functions": [
+  "lib/ext2fs/blkmap64_rb.c:rb_resize_bmap",
+  "lib/ext2fs/blkmap64_rb.c:rb_truncate",
+  "lib/ext2fs/blkmap64_rb.c:rb_insert_extent"
+ ],
+ "assumes": [
+  "x"
+ ],
+ "backend": "minisat",
+ "native": true,
+ "cbmc_flags": [
+  "--object-bits",
+  "10"
+ ],
+ "unwindset": {
+  "ext2fs_rb_next.0": 4,
+  "ext2fs_rb_next.1": 4,
+  "ext2fs_rb_prev.0": 4,
+  "ext2fs_rb_prev.1": 4,
+  "ext2fs_rb_last.0": 4,
+  "ext2fs_rb_insert_color.0": 2,
+  "rb_insert_extent.0": 4,
+  "rb_insert_extent.1": 5,
+  "rb_truncate.0": 7
+ },
+ "replace": [
+  "ext2fs_rb_erase"
+ ]
+}
+*/
+/* VERIF-UNIT
+{
+ "name": "rb_resize_bmap_cut_n4",
+ "props": [
+  "C16"
+ ],
+ "level": "B(4)",
+ "tier": "wip",
+ "harness": "h_rb_resize",
+ "defines": [
+  "EXT2_CUSTOM_MEMORY_ROUTINES",
+  "RB_N=4",
+  "RB_NEW=0",
+  "RB_SCEN=3",
+  "RB_BITS=16"
+ ],
+ "unwind": 9,
+ "unwind_reason": "x",
+ "sources": [
+  "lib/ext2fs/rbtree.c"
+ ],
+ "functions": [
+  "lib/ext2fs/blkmap64_rb.c:rb_resize_bmap",
+  "lib/ext2fs/blkmap64_rb.c:rb_truncate",
+  "lib/ext2fs/blkmap64_rb.c:rb_insert_extent"
+ ],
+ "assumes": [
+  "x"
+ ],
+ "backend": "minisat",
+ "native": true,
+ "cbmc_flags": [
+  "--object-bits",
+  "10"
+ ],
+ "unwindset": {
+  "ext2fs_rb_next.0": 4,
+  "ext2fs_rb_next.1": 4,
+  "ext2fs_rb_prev.0": 4,
+  "ext2fs_rb_prev.1": 4,
+  "ext2fs_rb_last.0": 4,
+  "ext2fs_rb_erase.0": 3,
+  "__rb_erase_color.0": 3,
+  "rb_insert_extent.0": 4,
+  "rb_insert_extent.1": 5,
+  "rb_truncate.0": 7
+ },
+ "replace": [
+  "ext2fs_rb_insert_color"
+ ]
+}
+*/
+/* VERIF-UNIT
+{
+ "name": "rb_resize_bmap_cutpad_n4",
+ "props": [
+  "C16"
+ ],
+ "level": "B(4)",
+ "tier": "wip",
+ "harness": "h_rb_resize",
+ "defines": [
+  "EXT2_CUSTOM_MEMORY_ROUTINES",
+  "RB_N=4",
+  "RB_NEW=1",
+  "RB_SCEN=4",
+  "RB_BITS=16"
+ ],
+ "unwind": 9,
+ "unwind_reason": "x",
+ "sources": [
+  "lib/ext2fs/rbtree.c"
+ ],
+ "functions": [
+  "lib/ext2fs/blkmap64_rb.c:rb_resize_bmap",
+  "lib/ext2fs/blkmap64_rb.c:rb_truncate",
+  "lib/ext2fs/blkmap64_rb.c:rb_insert_extent"
+ ],
+ "assumes": [
+  "x"
+ ],
+ "backend": "minisat",
+ "native": true,
+ "cbmc_flags": [
+  "--object-bits",
+  "10"
+ ],
+ "unwindset": {
+  "ext2fs_rb_next.0": 4,
+  "ext2fs_rb_next.1": 4,
+  "ext2fs_rb_prev.0": 4,
+  "ext2fs_rb_prev.1": 4,
+  "ext2fs_rb_last.0": 4,
+  "ext2fs_rb_erase.0": 3,
+  "__rb_erase_color.0": 3,
+  "ext2fs_rb_insert_color.0": 2,
+  "rb_insert_extent.0": 4,
+  "rb_insert_extent.1": 5,
+  "rb_truncate.0": 7
+ }
+}
+*/
 #include "rb_common.h"
 
 #define IN_RANGE_REL(k, s, c) ((k) >= (s) && (k) - (s) < (c))
+
+/*
+ * Scenario predicates over the inputs (relative range [a, a+c), no wrap).  For each mutating operation the scenarios
+ * selected by RB_SCEN partition the input space (RB_SCEN 0 / undefined: no restriction):
+ *   insert  1: hit && !reach   the range starts in or immediately behind an extent and does not reach the next one
+ *                              (tree structure unchanged: neither a new node nor an erase)
+ *           2: !hit && !reach  a new node, nothing merged (no erase)
+ *           3: hit && reach    an extent is extended and swallows / merges with later ones (erase, no new node)
+ *           4: !hit && reach   a new node that swallows / merges with later ones (new node and erase)
+ *   remove  1: !covered && !split   extents are only truncated (structure unchanged)
+ *           2: split                the range lies strictly inside one extent (new node via rb_insert_extent, no erase)
+ *           3: covered              at least one extent lies entirely inside the range (erase, rb_insert_extent unreachable)
+ *   resize  1: !beyond && (!pad || touch)   nothing cut off entirely, padding absent or glued to the extent holding new_end
+ *           2: !beyond && pad && !touch     padding becomes a new node
+ *           3: beyond && (!pad || touch)    whole extents cut off (erase), no new node
+ *           4: beyond && pad && !touch      erase and new node
+ */
+static int sc_hit(unsigned long long a)
+{
+	int r = 0;
+	for (int i = 0; i < RB_N; i++)
+		if (i < NN && IN.es[i] <= a && a <= IN.es[i] + IN.ec[i])
+			r = 1;
+	return r;
+}
+static int sc_reach(unsigned long long a, unsigned long long c)
+{
+	int r = 0;
+	for (int i = 0; i < RB_N; i++)
+		if (i < NN && a < IN.es[i] && IN.es[i] <= a + c)
+			r = 1;
+	return r;
+}
+static int sc_covered(unsigned long long a, unsigned long long c)
+{
+	int r = 0;
+	for (int i = 0; i < RB_N; i++)
+		if (i < NN && a <= IN.es[i] && IN.es[i] + IN.ec[i] <= a + c)
+			r = 1;
+	return r;
+}
+static int sc_split(unsigned long long a, unsigned long long c)
+{
+	int r = 0;
+	for (int i = 0; i < RB_N; i++)
+		if (i < NN && IN.es[i] < a && a + c < IN.es[i] + IN.ec[i])
+			r = 1;
+	return r;
+}
+static int sc_beyond(unsigned long long new_max)
+{
+	int r = 0;
+	for (int i = 0; i < RB_N; i++)
+		if (i < NN && IN.es[i] > new_max)
+			r = 1;
+	return r;
+}
+static int sc_holds(unsigned long long b)	/* some extent contains bit b (same as ref_member, named for the scenario) */
+{
+	return ref_member(b);
+}
 
 static void check_unchanged(void)
 {
@@ -2464,21 +4753,35 @@ void h_rb_insert(void)
 {
 	build_rb();
 	ASSUME(IN.num >= 1 && IN.arg <= IN.real_end - IN.start && IN.num - 1 <= IN.real_end - IN.start - IN.arg);
+#if RB_SCEN == 1
+	ASSUME(sc_hit(IN.arg) && !sc_reach(IN.arg, IN.num));
+#elif RB_SCEN == 2
+	ASSUME(!sc_hit(IN.arg) && !sc_reach(IN.arg, IN.num));
+#elif RB_SCEN == 3
+	ASSUME(sc_hit(IN.arg) && sc_reach(IN.arg, IN.num));
+#elif RB_SCEN == 4
+	ASSUME(!sc_hit(IN.arg) && sc_reach(IN.arg, IN.num));
+#endif
 	int r = rb_insert_extent(IN.arg, IN.num, BP);
 	CHECK(IN.num != 1 || (r != 0) == ref_member(IN.arg), "mark of one bit returns its old membership");
 	CHECK_TREE("insert_extent");
 	CHECK(view(verif_k) == (ref_member(verif_k) || IN_RANGE_REL(verif_k, IN.arg, IN.num)), "insert_extent: the set gains exactly [start, start+count)");
-	CHECK(BM.start == IN.start && BM.end == IN.end && BM.real_end == IN.real_end, "geometry untouched");
-#if RB_N >= 1
-	/* situations (phrased over the inputs): */
-	if (NN == RB_N && IN.arg == IN.es[0] + IN.ec[0] && IN.wc == 1) REACH("wcursor shortcut, range adjacent right after extent 0");
-	if (NN == RB_N && IN.wc == 0 && IN.arg + IN.num == IN.es[0]) REACH("no wcursor, range adjacent left of extent 0 (merge right)");
-	if (NN == RB_N && IN.wc == 0 && IN.arg == IN.es[RB_N - 1] + IN.ec[RB_N - 1]) REACH("no wcursor, range adjacent right after the last extent (merge left)");
-	if (NN == RB_N && IN.arg < IN.es[0] && IN.arg + IN.num > IN.es[RB_N - 1] + IN.ec[RB_N - 1]) REACH("range swallows every extent");
-#endif
-#if RB_N >= 2
-	if (NN == RB_N && IN.arg == IN.es[0] + IN.ec[0] && IN.arg + IN.num == IN.es[1]) REACH("range exactly fills the gap between extents 0 and 1");
+	/* situations, phrased over the inputs */
+#if RB_SCEN == 1 && RB_N >= 1
+	if (NN == RB_N && IN.wc == 1 && IN.arg == IN.es[0] + IN.ec[0]) REACH("wcursor shortcut: range immediately behind extent 0 (merge with the left neighbour)");
+	if (NN == RB_N && IN.wc == 0 && IN.arg == IN.es[RB_N - 1] + IN.ec[RB_N - 1]) REACH("no wcursor: range immediately behind the last extent (merge with the left neighbour)");
+	if (NN == RB_N && IN.arg > IN.es[0] && IN.arg + IN.num < IN.es[0] + IN.ec[0]) REACH("range strictly inside extent 0");
+#elif RB_SCEN == 2 && RB_N >= 2
 	if (NN == RB_N && IN.arg > IN.es[0] + IN.ec[0] && IN.arg + IN.num < IN.es[1]) REACH("new extent strictly inside the gap between extents 0 and 1");
+	if (NN == RB_N && IN.wc == RB_N && IN.arg + IN.num < IN.es[0]) REACH("wcursor on the last extent, new extent before extent 0");
+#elif RB_SCEN == 2 && RB_N == 1
+	if (IN.wc == 1 && IN.arg + IN.num < IN.es[0]) REACH("wcursor set, new extent before extent 0");
+#elif RB_SCEN == 3 && RB_N >= 2
+	if (NN == RB_N && IN.arg == IN.es[0] + IN.ec[0] && IN.arg + IN.num == IN.es[1]) REACH("range exactly fills the gap between extents 0 and 1 (merge left and right)");
+	if (NN == RB_N && IN.wc == 1 && IN.arg > IN.es[0] && IN.arg + IN.num > IN.es[RB_N - 1] + IN.ec[RB_N - 1]) REACH("wcursor shortcut: range from inside extent 0 beyond the last extent");
+#elif RB_SCEN == 4 && RB_N >= 1
+	if (NN == RB_N && IN.arg + IN.num == IN.es[0]) REACH("range ends immediately before extent 0 (merge with the right neighbour)");
+	if (NN == RB_N && IN.arg < IN.es[0] && IN.arg + IN.num > IN.es[RB_N - 1] + IN.ec[RB_N - 1]) REACH("range swallows every extent");
 #endif
 	REACH("end");
 }
@@ -2488,21 +4791,33 @@ void h_rb_remove(void)
 {
 	build_rb();
 	ASSUME(IN.num >= 1 && IN.arg <= IN.real_end - IN.start && IN.num - 1 <= IN.real_end - IN.start - IN.arg);
+#if RB_SCEN == 1
+	ASSUME(!sc_covered(IN.arg, IN.num) && !sc_split(IN.arg, IN.num));
+#elif RB_SCEN == 2
+	ASSUME(sc_split(IN.arg, IN.num));
+#elif RB_SCEN == 3
+	ASSUME(sc_covered(IN.arg, IN.num));
+#endif
 	int r = rb_remove_extent(IN.arg, IN.num, BP);
 	CHECK((r != 0) == ref_any_in(IN.arg, IN.num), "remove_extent returns nonzero iff some bit of the range was set (unmark of one bit: its old membership)");
 	CHECK_TREE("remove_extent");
 	CHECK(view(verif_k) == (ref_member(verif_k) && !IN_RANGE_REL(verif_k, IN.arg, IN.num)), "remove_extent: the set loses exactly [start, start+count)");
-	CHECK(BM.start == IN.start && BM.end == IN.end && BM.real_end == IN.real_end, "geometry untouched");
-#if RB_N >= 1
-	if (NN == RB_N && IN.arg > IN.es[0] && IN.arg + IN.num < IN.es[0] + IN.ec[0]) REACH("range covers the middle of extent 0 (split)");
+#if RB_SCEN == 1 && RB_N >= 1
 	if (NN == RB_N && IN.arg < IN.es[0] && IN.arg + IN.num > IN.es[0] && IN.arg + IN.num < IN.es[0] + IN.ec[0]) REACH("range starts outside and ends strictly inside extent 0 (head truncated)");
 	if (NN == RB_N && IN.arg == IN.es[0] && IN.num < IN.ec[0]) REACH("range is a proper prefix of extent 0");
 	if (NN == RB_N && IN.arg > IN.es[0] && IN.arg + IN.num == IN.es[0] + IN.ec[0]) REACH("range is a proper suffix of extent 0");
-	if (NN == RB_N && IN.arg <= IN.es[0] && IN.arg + IN.num >= IN.es[RB_N - 1] + IN.ec[RB_N - 1]) REACH("range covers every extent");
 	if (NN == RB_N && IN.arg + IN.num == IN.es[0]) REACH("range ends immediately before extent 0");
 #endif
-#if RB_N >= 2
-	if (NN == RB_N && IN.arg > IN.es[0] && IN.arg < IN.es[0] + IN.ec[0] && IN.arg + IN.num > IN.es[1] && IN.arg + IN.num < IN.es[1] + IN.ec[1]) REACH("range from inside extent 0 to inside extent 1");
+#if RB_SCEN == 1 && RB_N >= 2
+	if (NN == RB_N && IN.arg > IN.es[0] && IN.arg < IN.es[0] + IN.ec[0] && IN.arg + IN.num > IN.es[1] && IN.arg + IN.num < IN.es[1] + IN.ec[1]) REACH("range from inside extent 0 to inside extent 1 (tail and head truncated)");
+#endif
+#if RB_SCEN == 2 && RB_N >= 1
+	if (NN == RB_N && IN.arg > IN.es[RB_N - 1] && IN.arg + IN.num < IN.es[RB_N - 1] + IN.ec[RB_N - 1]) REACH("range covers the middle of the last extent (split)");
+	if (NN == RB_N && IN.arg > IN.es[0] && IN.arg + IN.num < IN.es[0] + IN.ec[0] && IN.wc == 1 && IN.rc == 1) REACH("range covers the middle of extent 0, both cursors on it (split)");
+#endif
+#if RB_SCEN == 3 && RB_N >= 1
+	if (NN == RB_N && IN.arg <= IN.es[0] && IN.arg + IN.num >= IN.es[RB_N - 1] + IN.ec[RB_N - 1]) REACH("range covers every extent");
+	if (NN == RB_N && IN.arg == IN.es[0] && IN.num == IN.ec[0] && IN.rc == 1 && IN.rcn) REACH("range is exactly extent 0, rcursor on it");
 #endif
 	REACH("end");
 }
@@ -2624,6 +4939,20 @@ void h_rb_resize(void)
 	build_rb();
 	ASSUME(IN.arg >= IN.start && IN.arg <= IN.arg2 && IN.arg2 - IN.start < (1ULL << RB_BITS));
 	unsigned long long keep = (IN.arg < IN.end ? IN.arg : IN.end) - IN.start;	/* last bit that survives */
+	{
+		int beyond = sc_beyond(keep), pad = IN.arg < IN.arg2;
+		int touch = IN.arg <= IN.end && sc_holds(IN.arg - IN.start);
+#if RB_SCEN == 1
+		ASSUME(!beyond && (!pad || touch));
+#elif RB_SCEN == 2
+		ASSUME(!beyond && pad && !touch);
+#elif RB_SCEN == 3
+		ASSUME(beyond && (!pad || touch));
+#elif RB_SCEN == 4
+		ASSUME(beyond && pad && !touch);
+#endif
+		(void)beyond; (void)pad; (void)touch;
+	}
 	errcode_t r = rb_resize_bmap(&BM, IN.arg, IN.arg2);
 	CHECK(r == 0, "resize succeeds");
 	CHECK(BM.end == IN.arg && BM.real_end == IN.arg2 && BM.start == IN.start, "resize installs the new geometry");
@@ -2632,12 +4961,18 @@ void h_rb_resize(void)
 		     verif_k <= IN.arg - IN.start ? 0 :
 		     verif_k <= IN.arg2 - IN.start ? 1 : 0;	/* padding (new_end, new_real_end] is marked, nothing beyond */
 	CHECK(view(verif_k) == expect, "resize: members <= min(old end, new end) kept, new tail empty, padding marked");
-#if RB_N >= 1
-	if (NN == RB_N && IN.arg < IN.end && IN.arg - IN.start < IN.es[0]) REACH("shrink below the first extent");
-	if (NN == RB_N && IN.arg < IN.end && IN.arg - IN.start > IN.es[RB_N - 1] && IN.arg - IN.start < IN.es[RB_N - 1] + IN.ec[RB_N - 1] - 1) REACH("shrink into the last extent");
-	if (NN == RB_N && IN.arg > IN.end && IN.arg2 > IN.arg && IN.es[RB_N - 1] + IN.ec[RB_N - 1] - 1 == IN.real_end - IN.start && IN.end < IN.real_end) REACH("grow, old padding present");
+#if RB_SCEN == 1 && RB_N >= 1
+	if (NN == RB_N && IN.arg < IN.end && IN.arg - IN.start > IN.es[RB_N - 1] && IN.arg - IN.start < IN.es[RB_N - 1] + IN.ec[RB_N - 1] - 1 && IN.arg < IN.arg2) REACH("shrink into the last extent, padding glued to it");
+	if (NN == RB_N && IN.arg > IN.end && IN.arg == IN.arg2) REACH("grow without padding");
+#elif RB_SCEN == 2 && RB_N >= 1
+	if (NN == RB_N && IN.arg > IN.end && IN.es[RB_N - 1] + IN.ec[RB_N - 1] - 1 == IN.end - IN.start) REACH("grow, last extent ends at the old end, padding becomes a new extent");
+	if (NN == RB_N && IN.arg < IN.end) REACH("shrink, padding becomes a new extent");
+#elif RB_SCEN == 3 && RB_N >= 1
+	if (NN == RB_N && IN.arg - IN.start < IN.es[0] && IN.arg == IN.arg2) REACH("shrink below the first extent, no padding");
+	if (NN == RB_N && IN.arg > IN.end && IN.es[RB_N - 1] > IN.end - IN.start) REACH("grow, old padding extent removed");
+#elif RB_SCEN == 4 && RB_N >= 1
+	if (NN == RB_N && IN.arg - IN.start < IN.es[0]) REACH("shrink below the first extent, padding is the only extent left");
 #endif
-	if (IN.arg > IN.end) REACH("grow");
 	REACH("end");
 }
 
